@@ -167,6 +167,51 @@ R.contract(
     props=["C14"],
 )
 
+R.contract(
+    "MultiObjectiveProgressTracker.get_best_individuals",
+    file=TRK,
+    params=dict(self="MultiObjectiveProgressTracker"),
+    returns="list[Individual]",
+    ensures={"is_the_front": "same(result, self.pareto_front)"},
+    modifies=[],
+    allocates=False,
+    props=["C12"],
+)
+R.cls("TargetMultiSameFitness", bases=["SearchBudget"], fields={"target_fitness": "float"}, file=BUD)
+R.contract(
+    "TargetMultiSameFitness.is_done",
+    file=BUD,
+    params=dict(self="TargetMultiSameFitness", tracker="MultiObjectiveProgressTracker"),
+    returns="bool",
+    requires={
+        "front_non_empty_and_evaluated": "len(tracker.pareto_front) >= 1 and tracker.problem in tracker.pareto_front[0].fitness_store",
+    },
+    ensures={
+        "every_component_within_tolerance": "result == forall(0, len(tracker.pareto_front[0].fitness_store[tracker.problem].fitness_components), lambda c: "
+        "abs(tracker.pareto_front[0].fitness_store[tracker.problem].fitness_components[c] - self.target_fitness) < 0.001)",
+    },
+    modifies=[],
+    props=["C14"],
+)
+
+R.cls("TargetMultiFitness", bases=["SearchBudget"], fields={"targets": "list[float]"}, file=BUD)
+R.contract(
+    "TargetMultiFitness.is_done",
+    file=BUD,
+    params=dict(self="TargetMultiFitness", tracker="MultiObjectiveProgressTracker"),
+    returns="bool",
+    requires={
+        "front_non_empty_and_evaluated": "len(tracker.pareto_front) >= 1 and tracker.problem in tracker.pareto_front[0].fitness_store",
+        "one_target_per_component": "len(tracker.pareto_front[0].fitness_store[tracker.problem].fitness_components) == len(self.targets)",
+    },
+    ensures={
+        "every_component_within_tolerance_of_its_target": "result == forall(0, len(self.targets), lambda c: "
+        "abs(tracker.pareto_front[0].fitness_store[tracker.problem].fitness_components[c] - self.targets[c]) < 0.001)",
+    },
+    modifies=[],
+    props=["C14"],
+)
+
 # ---- search loops -------------------------------------------------------------------------------------
 R.cls("SynthesisAlgorithm", fields={"tracker": "SingleObjectiveProgressTracker", "problem": "Problem", "budget": "EvaluationBudget",
                                     "representation": "Representation"}, file=API)
